@@ -113,7 +113,10 @@ fn gen_location(rng: &mut Rng) -> (Option<Vec<u8>>, &'static str) {
             if rng.chance(1, 2) {
                 (Some(b"http://".to_vec()), "unparsable")
             } else {
-                (Some(b"ftp://files.test/pub/x".to_vec()), "non-http-scheme")
+                // targets that parse but cannot be dialled: other scheme with a known port, no host at all,
+                // a scheme without a known default port
+                let pool: [&[u8]; 6] = [b"ftp://files.test/pub/x", b"mailto:admin@files.test", b"data:text/plain,hello", b"gopher2://files.test/x", b"ws://files.test/socket", b"file:///etc/hosts"];
+                (Some(pool[rng.below(6) as usize].to_vec()), "non-http-scheme")
             }
         }
         // relative references that carry a URL inside (return/next parameters): still relative (RFC 3986 §4.2:
@@ -208,7 +211,7 @@ pub fn generate_c09(seed: u64, tier: &str, sink: &mut Sink) {
             }
             match (&outcome, &obs.fin) {
                 (Outcome::TooMany, FinalObs::Err(k)) if k == "tooManyRedirections" => Ok(()),
-                (Outcome::LocationError, FinalObs::Err(k)) if k == "locationHeader" || k == "redirectionUrl" || k == "invalidBaseUrl" => Ok(()),
+                (Outcome::LocationError, FinalObs::Err(k)) if k == "locationHeader" || k == "redirectionUrl" || k == "invalidBaseUrl" || k == "invalidUrlHost" || k == "invalidUrlPort" => Ok(()),
                 (Outcome::Returned(st, u), FinalObs::Ok(s2, u2)) if *st == *s2 && full(u).as_deref() == Some(u2.as_str()) => Ok(()),
                 (Outcome::Returned(0, _), FinalObs::Err(_)) => Ok(()), // chain longer than the script: connection yields EOF
                 (e, f) => Err((format!("outcome-{}", match e { Outcome::TooMany => "too-many", Outcome::LocationError => "location", Outcome::Returned(..) => "returned" }), format!("expected {:?}, got {:?}", e, f))),
